@@ -4,11 +4,15 @@ UNIT-1 dimensions in the switch controller   DOM-6 duplicate suppression
 DOM-7  NC inversion                           DOM-8 cancel timed handlers on change, then call handlers, then monitors
 PAIR-3 symmetric add/remove stores            SNAP-2 / DOM-9 snapshot + cancelled / membership re-check
 PAIR-4 one scheduled wake-up per switch       DOM-10t timed deadline = change time + hold time, fired when due
+FWD-3  entry points / removal wrappers hand their arguments to the worker unchanged
+QUERY-1 is_state / is_active / is_inactive read the logical state (and the time since the last change)
+INIT-1 the initial hardware read applies NC inversion to every switch of the platform
+EVT-1  configured / automatic switch events are registered for the state their name says
 """
 import ast
 
 from sa.model import src, short, dotted, call_attr, kwarg, walk_local, AnalysisError, assigned_targets, const_value
-from sa.helpers import is_snapshot, base_container, feasible_paths
+from sa.helpers import is_snapshot, base_container, feasible_paths, forwarded
 from sa.units import Units, load_spec, ABS, S, MS
 
 SC = "mpf/core/switch_controller.py"
@@ -35,6 +39,140 @@ def _flip_target(stmt):
                 and isinstance(v.args[0].op, ast.Not) and src(v.args[0].operand) == t:
             return t
     return None
+
+
+def _switch_obj_rules(chk, repo):
+    """DOM-6 / DOM-7 / DOM-8 in SwitchController.process_switch_obj."""
+    f = repo.func(SC, K + ".process_switch_obj")
+    chk.analysed(f)
+    cfg = f.cfg()
+    dup = [b for b in cfg.nodes if b.kind == "branch" and src(b.ast).replace(" ", "") in ("obj.state==state", "state==obj.state")]
+    dupn = [b for b in cfg.nodes if b.kind == "branch" and src(b.ast).replace(" ", "") in ("obj.state!=state", "state!=obj.state")]
+    if not (dup or dupn):
+        chk.missing("DOM-6", "process_switch_obj compares the report with the current logical state (duplicate test)", f)
+
+    def not_dup(nid):
+        g = cfg.guards_at(nid)
+        return any(k.replace(" ", "") in ("obj.state==state", "state==obj.state") and v is False for k, v in g.items()) or \
+            any(k.replace(" ", "") in ("obj.state!=state", "state!=obj.state") and v is True for k, v in g.items())
+    effects = []
+    for n in cfg.nodes_where(lambda n: n.kind == "stmt"):
+        for t in assigned_targets(n.ast):
+            if dotted(t) in ("obj.state", "obj.hw_state", "obj.last_change"):
+                effects.append((n, "store " + dotted(t)))
+    for n, c in cfg.calls_named("_cancel_timed_handlers", "_call_handlers"):
+        effects.append((n, "call " + call_attr(c)))
+    for n in cfg.nodes:
+        if n.kind == "loop" and "monitors" in src(n.ast.iter):
+            effects.append((n, "monitor loop"))
+    chk.expect(len(effects) >= 6, "C03: effects of a switch change not found in process_switch_obj")
+    for n, what in effects:
+        chk.ob("DOM-6", "%s happens only for a real change (not a duplicate report)" % what, not_dup(n.id), f.where(n.ast),
+               detail="not dominated by the false side of `obj.state == state`", construct=f.ident, text="effect " + what)
+    # the duplicate side returns without effects
+    for b in dup:
+        if b.value is True:
+            reach = cfg.reachable([b.id])
+            bad = [n for n, what in effects if n.id in reach]
+            chk.ob("DOM-6", "a duplicate report reaches no effect", not bad, f.where(b.ast), construct=f.ident,
+                   text="duplicate side effects")
+    # the comparison happens after the inversion and against the *logical* state
+    flips = [(n, _flip_target(n.ast)) for n in cfg.nodes_where(lambda n: n.kind == "stmt") if _flip_target(n.ast)]
+    got = {}
+    for n, t in flips:
+        g = cfg.guards_at(n.id)
+        got[t] = (g.get("obj.invert"), g.get("logical"))
+        for b in dup + dupn:
+            chk.ob("DOM-7", "inversion of %s precedes the duplicate test" % t, not cfg.path_avoiding(b.id, [n.id], []),
+                   f.where(n.ast), construct=f.ident, text="flip after test " + t)
+    chk.ob("DOM-7", "NC + logical report flips exactly the hardware state", got.get("hw_state") == (True, True), f.where(),
+           detail="flips found: %s" % got, construct=f.ident, text="flip hw_state under invert&logical")
+    chk.ob("DOM-7", "NC + raw report flips exactly the logical state", got.get("state") == (True, False), f.where(),
+           detail="flips found: %s" % got, construct=f.ident, text="flip state under invert&not logical")
+    chk.ob("DOM-7", "no other inversion", set(got) <= {"hw_state", "state"} and len(flips) == 2, f.where(),
+           detail="flips: %s" % [(t, f.where(n.ast)) for n, t in flips], construct=f.ident, text="flip count")
+    hw0 = [n for n in cfg.nodes_where(lambda n: n.kind == "stmt" and isinstance(n.ast, ast.Assign) and
+                                      dotted(n.ast.targets[0]) == "hw_state")]
+    ok = bool(hw0) and src(hw0[0].ast.value) == "state" and all(cfg.dominates(hw0[0].id, n.id) for n, t in flips)
+    chk.ob("DOM-7", "hardware state starts as the normalised reported state, before inversion", ok, f.where(),
+           construct=f.ident, text="hw_state = state first")
+    # normalisation to 0/1
+    norm = [n for n in cfg.nodes_where(lambda n: n.kind == "stmt" and isinstance(n.ast, ast.Assign) and
+                                       dotted(n.ast.targets[0]) == "state" and src(n.ast.value) in ("1", "0", "int(bool(state))", "1 if state else 0"))]
+    nvals = {src(n.ast.value) for n in norm}
+    chk.ob("DOM-7", "reported state is normalised to 0/1", bool(norm) and (nvals >= {"0", "1"} or bool(nvals - {"0", "1"})), f.where(),
+           detail="normalising stores: %s" % sorted(nvals), construct=f.ident, text="state normalised")
+    st_store = [n for n, w in effects if w == "store obj.state"]
+    hw_store = [n for n, w in effects if w == "store obj.hw_state"]
+    chk.ob("DOM-7", "obj.state receives the logical and obj.hw_state the hardware value",
+           bool(st_store) and src(st_store[0].ast.value) == "state" and bool(hw_store) and src(hw_store[0].ast.value) == "hw_state",
+           f.where(), construct=f.ident, text="stores of state/hw_state")
+    lc = [n for n, w in effects if w == "store obj.last_change"]
+    # a missing timestamp defaults to the clock; a supplied one is kept
+    tstores = [n for n in cfg.nodes_where(lambda n: n.kind == "stmt" and isinstance(n.ast, ast.Assign) and
+                                          dotted(n.ast.targets[0]) == "timestamp")]
+    a_ = f.node.args
+    names_ = [x.arg for x in a_.args]
+    dflt = None
+    if "timestamp" in names_:
+        i_ = names_.index("timestamp") - (len(names_) - len(a_.defaults))
+        dflt = a_.defaults[i_] if i_ >= 0 else None
+    if dflt is not None and const_value(dflt) is None and isinstance(dflt, ast.Constant):
+        chk.ob("DOM-7", "an omitted timestamp defaults to the clock", bool(tstores), f.where(), construct=f.ident,
+               text="timestamp default")
+    for n in tstores:
+        g = cfg.guards_at(n.id)
+        ok = g.get("timestamp is None") is True or g.get("timestamp is not None") is False or g.get("timestamp") is False
+        chk.ob("DOM-7", "a timestamp supplied by the platform is never overwritten", ok and "get_time" in src(n.ast.value),
+               f.where(n.ast), detail="guards %s, value %s" % (sorted(g.items()), src(n.ast.value)), construct=f.ident,
+               text="timestamp overwritten")
+    chk.ob("DOM-7", "last_change receives the change timestamp", bool(lc) and src(lc[0].ast.value) == "timestamp", f.where(),
+           construct=f.ident, text="last_change = timestamp")
+    # DOM-8 order: store -> cancel -> call handlers -> monitors
+    cancel = [n for n, w in effects if w == "call _cancel_timed_handlers"]
+    callh = [n for n, w in effects if w == "call _call_handlers"]
+    mon = [n for n, w in effects if w == "monitor loop"]
+    for lst, what in ((callh, "handlers of the new state are called (_call_handlers)"), (mon, "switch monitors are notified"),
+                      (st_store, "the logical state is stored (obj.state = state)")):
+        if not lst:
+            chk.missing("DOM-8", what, f)
+    if not (callh and mon and st_store):
+        return
+    w = cfg.must_pass(st_store[0].id, [c.id for c in cancel])
+    chk.ob("DOM-8", "every path after the state store cancels the pending timed handlers", w is None, f.where(st_store[0].ast),
+           path=cfg.fmt_path(w, SC) if w else None, construct=f.ident, text="cancel after store")
+    chk.ob("DOM-8", "timed handlers of the old state are cancelled before the new state's handlers are armed/called",
+           all(cfg.dominates(c.id, h.id) for c in cancel for h in callh), f.where(callh[0].ast), construct=f.ident,
+           text="cancel before call")
+    chk.ob("DOM-8", "the state is stored before handlers run", all(cfg.dominates(st_store[0].id, h.id) and cfg.dominates(lc[0].id, h.id)
+                                                                   for h in callh) if lc else False, f.where(), construct=f.ident,
+           text="store before handlers")
+    for h in callh:
+        g = cfg.guards_at(h.id)
+        # tests of the `if` statements lexically enclosing the call
+        encl = set()
+        for x in ast.walk(f.node):
+            if isinstance(x, ast.If) and any(y is h.ast for st in x.body + x.orelse for y in ast.walk(st)):
+                for b in cfg.nodes:
+                    if b.kind == "test" and b.owner is x:
+                        encl.add(src(b.ast))
+        ok = g.get("self._initialized") is True and g.get("obj.is_muted") is False and \
+            encl <= {"self._initialized", "obj.is_muted"}
+        chk.ob("DOM-8", "handlers are skipped only before init or while muted", ok, f.where(h.ast),
+               detail="guards %s" % sorted(g.items()), construct=f.ident, text="handler call guards")
+        c = [c for c in h.calls() if call_attr(c) == "_call_handlers"][0]
+        chk.ob("DOM-8", "handlers of the *new* logical state are called", len(c.args) == 2 and src(c.args[0]) == "obj" and src(c.args[1]) == "state",
+               f.where(c), construct=f.ident, text="call_handlers args " + short(c))
+    for m_ in mon:
+        chk.ob("DOM-8", "the monitor loop runs over all registered monitors", src(base_container(m_.ast.iter)) == "self.monitors",
+               f.where(m_.ast), detail="iterates " + short(m_.ast.iter), construct=f.ident, text="monitor loop iter " + short(m_.ast.iter))
+    w = cfg.must_pass(st_store[0].id, [m.id for m in mon])
+    chk.ob("DOM-8", "monitors see every change", w is None, f.where(), path=cfg.fmt_path(w, SC) if w else None,
+           construct=f.ident, text="monitors after store")
+    chk.floor("DOM-6", 5)
+    chk.floor("DOM-7", 6)
+    chk.floor("DOM-8", 5)
+
 
 
 def check(chk):
@@ -101,109 +239,7 @@ def check(chk):
     chk.floor("UNIT-1", 5)
 
     # ------------------------------------------------------- DOM-6/7/8
-    f = repo.func(SC, K + ".process_switch_obj")
-    chk.analysed(f)
-    cfg = f.cfg()
-    dup = [b for b in cfg.nodes if b.kind == "branch" and src(b.ast).replace(" ", "") in ("obj.state==state", "state==obj.state")]
-    dupn = [b for b in cfg.nodes if b.kind == "branch" and src(b.ast).replace(" ", "") in ("obj.state!=state", "state!=obj.state")]
-    chk.require(dup or dupn, "C03: duplicate test vanished from process_switch_obj")
-
-    def not_dup(nid):
-        g = cfg.guards_at(nid)
-        return any(k.replace(" ", "") in ("obj.state==state", "state==obj.state") and v is False for k, v in g.items()) or \
-            any(k.replace(" ", "") in ("obj.state!=state", "state!=obj.state") and v is True for k, v in g.items())
-    effects = []
-    for n in cfg.nodes_where(lambda n: n.kind == "stmt"):
-        for t in assigned_targets(n.ast):
-            if dotted(t) in ("obj.state", "obj.hw_state", "obj.last_change"):
-                effects.append((n, "store " + dotted(t)))
-    for n, c in cfg.calls_named("_cancel_timed_handlers", "_call_handlers"):
-        effects.append((n, "call " + call_attr(c)))
-    for n in cfg.nodes:
-        if n.kind == "loop" and "monitors" in src(n.ast.iter):
-            effects.append((n, "monitor loop"))
-    chk.expect(len(effects) >= 6, "C03: effects of a switch change not found in process_switch_obj")
-    for n, what in effects:
-        chk.ob("DOM-6", "%s happens only for a real change (not a duplicate report)" % what, not_dup(n.id), f.where(n.ast),
-               detail="not dominated by the false side of `obj.state == state`", construct=f.ident, text="effect " + what)
-    # the duplicate side returns without effects
-    for b in dup:
-        if b.value is True:
-            reach = cfg.reachable([b.id])
-            bad = [n for n, what in effects if n.id in reach]
-            chk.ob("DOM-6", "a duplicate report reaches no effect", not bad, f.where(b.ast), construct=f.ident,
-                   text="duplicate side effects")
-    # the comparison happens after the inversion and against the *logical* state
-    flips = [(n, _flip_target(n.ast)) for n in cfg.nodes_where(lambda n: n.kind == "stmt") if _flip_target(n.ast)]
-    got = {}
-    for n, t in flips:
-        g = cfg.guards_at(n.id)
-        got[t] = (g.get("obj.invert"), g.get("logical"))
-        for b in dup + dupn:
-            chk.ob("DOM-7", "inversion of %s precedes the duplicate test" % t, not cfg.path_avoiding(b.id, [n.id], []),
-                   f.where(n.ast), construct=f.ident, text="flip after test " + t)
-    chk.ob("DOM-7", "NC + logical report flips exactly the hardware state", got.get("hw_state") == (True, True), f.where(),
-           detail="flips found: %s" % got, construct=f.ident, text="flip hw_state under invert&logical")
-    chk.ob("DOM-7", "NC + raw report flips exactly the logical state", got.get("state") == (True, False), f.where(),
-           detail="flips found: %s" % got, construct=f.ident, text="flip state under invert&not logical")
-    chk.ob("DOM-7", "no other inversion", set(got) <= {"hw_state", "state"} and len(flips) == 2, f.where(),
-           detail="flips: %s" % [(t, f.where(n.ast)) for n, t in flips], construct=f.ident, text="flip count")
-    hw0 = [n for n in cfg.nodes_where(lambda n: n.kind == "stmt" and isinstance(n.ast, ast.Assign) and
-                                      dotted(n.ast.targets[0]) == "hw_state")]
-    ok = bool(hw0) and src(hw0[0].ast.value) == "state" and all(cfg.dominates(hw0[0].id, n.id) for n, t in flips)
-    chk.ob("DOM-7", "hardware state starts as the normalised reported state, before inversion", ok, f.where(),
-           construct=f.ident, text="hw_state = state first")
-    # normalisation to 0/1
-    norm = [n for n in cfg.nodes_where(lambda n: n.kind == "stmt" and isinstance(n.ast, ast.Assign) and
-                                       dotted(n.ast.targets[0]) == "state" and src(n.ast.value) in ("1", "0", "int(bool(state))", "1 if state else 0"))]
-    chk.ob("DOM-7", "reported state is normalised to 0/1", bool(norm), f.where(), construct=f.ident, text="state normalised")
-    st_store = [n for n, w in effects if w == "store obj.state"]
-    hw_store = [n for n, w in effects if w == "store obj.hw_state"]
-    chk.ob("DOM-7", "obj.state receives the logical and obj.hw_state the hardware value",
-           bool(st_store) and src(st_store[0].ast.value) == "state" and bool(hw_store) and src(hw_store[0].ast.value) == "hw_state",
-           f.where(), construct=f.ident, text="stores of state/hw_state")
-    lc = [n for n, w in effects if w == "store obj.last_change"]
-    chk.ob("DOM-7", "last_change receives the change timestamp", bool(lc) and src(lc[0].ast.value) == "timestamp", f.where(),
-           construct=f.ident, text="last_change = timestamp")
-    # DOM-8 order: store -> cancel -> call handlers -> monitors
-    cancel = [n for n, w in effects if w == "call _cancel_timed_handlers"]
-    callh = [n for n, w in effects if w == "call _call_handlers"]
-    mon = [n for n, w in effects if w == "monitor loop"]
-    chk.require(callh and mon and st_store, "C03: anchors of DOM-8 vanished")
-    w = cfg.must_pass(st_store[0].id, [c.id for c in cancel])
-    chk.ob("DOM-8", "every path after the state store cancels the pending timed handlers", w is None, f.where(st_store[0].ast),
-           path=cfg.fmt_path(w, SC) if w else None, construct=f.ident, text="cancel after store")
-    chk.ob("DOM-8", "timed handlers of the old state are cancelled before the new state's handlers are armed/called",
-           all(cfg.dominates(c.id, h.id) for c in cancel for h in callh), f.where(callh[0].ast), construct=f.ident,
-           text="cancel before call")
-    chk.ob("DOM-8", "the state is stored before handlers run", all(cfg.dominates(st_store[0].id, h.id) and cfg.dominates(lc[0].id, h.id)
-                                                                   for h in callh) if lc else False, f.where(), construct=f.ident,
-           text="store before handlers")
-    for h in callh:
-        g = cfg.guards_at(h.id)
-        # tests of the `if` statements lexically enclosing the call
-        encl = set()
-        for x in ast.walk(f.node):
-            if isinstance(x, ast.If) and any(y is h.ast for st in x.body + x.orelse for y in ast.walk(st)):
-                for b in cfg.nodes:
-                    if b.kind == "test" and b.owner is x:
-                        encl.add(src(b.ast))
-        ok = g.get("self._initialized") is True and g.get("obj.is_muted") is False and \
-            encl <= {"self._initialized", "obj.is_muted"}
-        chk.ob("DOM-8", "handlers are skipped only before init or while muted", ok, f.where(h.ast),
-               detail="guards %s" % sorted(g.items()), construct=f.ident, text="handler call guards")
-        c = [c for c in h.calls() if call_attr(c) == "_call_handlers"][0]
-        chk.ob("DOM-8", "handlers of the *new* logical state are called", len(c.args) == 2 and src(c.args[0]) == "obj" and src(c.args[1]) == "state",
-               f.where(c), construct=f.ident, text="call_handlers args " + short(c))
-    for m_ in mon:
-        chk.ob("DOM-8", "the monitor loop runs over all registered monitors", src(base_container(m_.ast.iter)) == "self.monitors",
-               f.where(m_.ast), detail="iterates " + short(m_.ast.iter), construct=f.ident, text="monitor loop iter " + short(m_.ast.iter))
-    w = cfg.must_pass(st_store[0].id, [m.id for m in mon])
-    chk.ob("DOM-8", "monitors see every change", w is None, f.where(), path=cfg.fmt_path(w, SC) if w else None,
-           construct=f.ident, text="monitors after store")
-    chk.floor("DOM-6", 5)
-    chk.floor("DOM-7", 6)
-    chk.floor("DOM-8", 5)
+    _switch_obj_rules(chk, repo)
 
     # ------------------------------------------------------------- SNAP-2 / DOM-9
     f = repo.func(SC, K + "._call_handlers")
@@ -219,7 +255,10 @@ def check(chk):
            f.where(head.ast), detail=bt, construct=f.ident, text="handler list " + bt)
     ev = head.ast.target.id if isinstance(head.ast.target, ast.Name) else "entry"
     uses = [(n, c) for n, c in cfg.calls_named("callback", "_add_timed_switch_handler")]
-    chk.require(uses, "C03: handler use vanished from _call_handlers")
+    if not any(call_attr(c) == "callback" for n, c in uses):
+        chk.missing("DOM-9", "_call_handlers calls untimed handlers", f)
+    if not any(call_attr(c) == "_add_timed_switch_handler" for n, c in uses):
+        chk.missing("DOM-9", "_call_handlers arms timed handlers", f)
     for n, c in uses:
         g = cfg.guards_at(n.id)
         chk.ob("DOM-9", "a handler removed meanwhile (cancelled) is skipped before `%s`" % call_attr(c),
@@ -244,7 +283,8 @@ def check(chk):
         chk.ob("SNAP-2", "timed-handler processing iterates copies (callbacks may add/remove entries)", is_snapshot(h.ast.iter),
                f.where(h.ast), construct=f.ident, text="snapshot " + short(h.ast.iter))
     cbs = [(n, c) for n, c in cfg.calls_named("callback")]
-    chk.require(cbs, "C03: callback call vanished from _process_active_timed_switches")
+    if not cbs:
+        chk.missing("DOM-9", "_process_active_timed_switches calls the due handlers", f)
     for n, c in cbs:
         g = cfg.guards_at(n.id)
         due = [k for k, v in g.items() if k.replace(" ", "") in ("k<=current_time", "current_time>=k") and v is True]
@@ -289,7 +329,8 @@ def check(chk):
     cfg = f.cfg()
     stores = [n for n in cfg.nodes_where(lambda n: n.kind == "stmt" and isinstance(n.ast, ast.Assign) and
                                          src(n.ast.targets[0]).replace(" ", "") == "self._timed_switch_handler_delay[switch]")]
-    chk.require(stores, "C03: wake-up store vanished from _add_timed_switch_handler")
+    if not stores:
+        chk.missing("PAIR-4", "_add_timed_switch_handler records the scheduled wake-up", f)
     uns = [n.id for n, c in cfg.calls_named("unschedule")]
     fresh = [b.id for b in cfg.nodes if b.kind == "branch" and src(b.ast).replace(" ", "") == "switchnotinself._timed_switch_handler_delay" and b.value is True] + \
             [b.id for b in cfg.nodes if b.kind == "branch" and src(b.ast).replace(" ", "") == "switchinself._timed_switch_handler_delay" and b.value is False]
@@ -402,6 +443,230 @@ def check(chk):
     chk.ob("DOM-9", "both states have an event-posting handler", {p[0] for p in pairs} >= {"0", "1"}, g2.where(), construct=g2.ident,
            text="both states registered")
 
+    _more_rules(chk, repo)
+
+
+def _more_rules(chk, repo):
+    sc = repo.cls(SC, K)
+    # ------------------------------------------------------------- PAIR-4 (earliest deadline really armed)
+    f = repo.func(SC, K + "._add_timed_switch_handler")
+    cfg = f.cfg()
+    ca = {n.id for n, c in cfg.calls_named("call_at")}
+    n_paths = 0
+    for path, facts in feasible_paths(cfg, cfg.entry.id, [cfg.exit.id]):
+        if ca & set(path):
+            continue
+        n_paths += 1
+        has_wakeup = any(v is False and k.replace(" ", "") == "switchnotinself._timed_switch_handler_delay" for k, v in facts.items()) or \
+            any(v is True and k.replace(" ", "") == "switchinself._timed_switch_handler_delay" for k, v in facts.items())
+        not_earlier = False
+        for k, v in facts.items():
+            try:
+                e = ast.parse(k, mode="eval").body
+            except SyntaxError:
+                continue
+            if isinstance(e, ast.Compare) and len(e.ops) == 1 and "_timed_switch_handler_delay[switch]" in k:
+                l, r, op = src(e.left), src(e.comparators[0]), e.ops[0]
+                if l == "next_event_time" and isinstance(op, ast.Lt) and v is False:
+                    not_earlier = True
+                if r == "next_event_time" and isinstance(op, ast.Gt) and v is False:
+                    not_earlier = True
+                if l == "next_event_time" and isinstance(op, ast.GtE) and v is True:
+                    not_earlier = True
+        chk.ob("PAIR-4", "no wake-up is (re)armed only if one is scheduled that is not later than the earliest deadline",
+               has_wakeup and not_earlier, f.where(), detail="path facts: %s" % sorted(facts.items()), construct=f.ident,
+               text="path without call_at", path=cfg.fmt_path(path, SC))
+    chk.ob("PAIR-4", "arming can be skipped at all (an armed earlier wake-up is kept)", n_paths >= 1, f.where(), construct=f.ident,
+           text="skip path exists", nontrivial=False)
+    # the compared deadline is the one stored in the record
+    recs = [n for n in ast.walk(f.node) if isinstance(n, ast.Assign) and "_timed_switch_handler_delay[switch]" in src(n.targets[0])
+            and isinstance(n.value, ast.Tuple)]
+    for r_ in recs:
+        idx = [i for i, e in enumerate(r_.value.elts) if src(e) == "next_event_time"]
+        cmps = [x for x in ast.walk(f.node) if isinstance(x, ast.Compare) and "_timed_switch_handler_delay[switch][" in src(x)]
+        for x in cmps:
+            subs = [y for y in ast.walk(x) if isinstance(y, ast.Subscript) and src(y.value).replace(" ", "") == "self._timed_switch_handler_delay[switch]"]
+            ok = bool(idx) and all(const_value(y.slice) == idx[0] for y in subs)
+            chk.ob("PAIR-4", "the pre-emption test reads the deadline field of the wake-up record", ok, f.where(x),
+                   construct=f.ident, text="record field index " + short(x, 70))
+        uns = [c for c in ast.walk(f.node) if isinstance(c, ast.Call) and call_attr(c) == "unschedule"]
+        hidx = [i for i, e in enumerate(r_.value.elts) if src(e) != "next_event_time"]
+        for c in uns:
+            subs = [y for y in ast.walk(c) if isinstance(y, ast.Subscript) and src(y.value).replace(" ", "") == "self._timed_switch_handler_delay[switch]"]
+            ok = bool(hidx) and all(const_value(y.slice) == hidx[0] for y in subs)
+            chk.ob("PAIR-4", "the replaced wake-up is unscheduled through its handle field", ok, f.where(c), construct=f.ident,
+                   text="unschedule handle index " + short(c, 70))
+
+    # ------------------------------------------------------------- FWD-3
+    obj = repo.func(SC, K + ".process_switch_obj")
+    rm = repo.func(SC, K + ".remove_switch_handler_obj")
+    add = repo.func(SC, K + ".add_switch_handler_obj")
+    FWD = [
+        (SC, K + ".process_switch", obj, ("state", "logical", "timestamp"), {"obj": {"obj", "switch", "self.machine.switches[name]"}}),
+        (SC, K + ".process_switch_by_num", obj, ("state", "logical", "timestamp"), {"obj": {"switch", "obj"}}),
+        (SC, K + ".remove_switch_handler_by_key", rm, ("callback", "state", "ms"),
+         {"switch": {"switch_handler.switch_name", "switch_handler.switch"}}),
+        (SC, K + ".remove_switch_handler_by_keys", rm, ("callback", "state", "ms"),
+         {"switch": {"switch_handler.switch_name", "switch_handler.switch"}}),
+        (SC, K + ".remove_switch_handler", rm, ("switch", "callback", "state", "ms"), None),
+        (SC, K + ".add_switch_handler", add, ("switch", "callback", "state", "ms", "return_info", "callback_kwargs"), None),
+        (SW, "Switch.add_handler", add, ("callback", "state", "ms", "return_info", "callback_kwargs"), {"switch": {"self"}}),
+        (SW, "Switch.remove_handler", rm, ("callback", "state", "ms"), {"switch": {"self"}}),
+    ]
+    for rel, qual, callee, same, mapping in FWD:
+        w = repo.try_func(rel, qual)
+        if w is None:
+            chk.expect(False, "C03: wrapper %s vanished" % qual)
+            continue
+        chk.analysed(w)
+        calls = [c for c in ast.walk(w.node) if isinstance(c, ast.Call) and call_attr(c) == callee.name]
+        if not calls:
+            chk.missing("FWD-3", "%s hands over to %s" % (qual, callee.name), w)
+            continue
+        for c in calls:
+            forwarded(chk, "FWD-3", w, c, callee, same=same, mapping=mapping, require_all=True)
+            # the hand-over is unconditional apart from validity checks that raise
+        if qual.endswith("process_switch_by_num"):
+            cf = w.cfg()
+            for n, c in cf.calls_named(callee.name):
+                g = {k: v for k, v in cf.guards_at(n.id).items() if "_debug" not in k}
+                ok = all((k == "switch" and v is True) or (k.replace(" ", "") == "notself._initialized" and v is False)
+                         or (k == "self._initialized" and v is True) for k, v in g.items())
+                chk.ob("FWD-3", "a report for a known switch always reaches process_switch_obj", ok, w.where(c),
+                       detail="guards %s" % sorted(g.items()), construct=w.ident, text="by_num guard")
+    chk.floor("FWD-3", 25)
+
+    # ------------------------------------------------------------- QUERY-1
+    for name, want in (("is_state", "state"), ("is_active", "1"), ("is_inactive", "0")):
+        q = repo.func(SC, K + "." + name)
+        chk.analysed(q)
+        rets = [r for r in ast.walk(q.node) if isinstance(r, ast.Return) and r.value is not None]
+        if not rets:
+            chk.missing("QUERY-1", "%s returns the comparison" % name, q)
+            continue
+        for r in rets:
+            v = r.value
+            # delegation to is_state(switch, <const>, ms)
+            if isinstance(v, ast.Call) and call_attr(v) == "is_state":
+                a = [src(x) for x in v.args] + [src(k.value) for k in v.keywords]
+                chk.ob("QUERY-1", "%s delegates to is_state with state %s" % (name, want), len(a) >= 2 and a[1] in (want, {"1": "True", "0": "False"}.get(want, want)),
+                       q.where(r), construct=q.ident, text="delegation " + short(v, 60))
+                continue
+            parts = v.values if isinstance(v, ast.BoolOp) and isinstance(v.op, ast.And) else [v]
+            st = [x for x in parts if isinstance(x, ast.Compare) and len(x.ops) == 1 and isinstance(x.ops[0], ast.Eq)
+                  and {src(x.left), src(x.comparators[0])} == {"switch.state", want}]
+            chk.ob("QUERY-1", "%s compares the logical state with %s" % (name, want), len(st) == 1 and not (
+                isinstance(v, ast.BoolOp) and isinstance(v.op, ast.Or)), q.where(r), detail=src(v), construct=q.ident,
+                text="state comparison in " + name + ": " + short(v, 60))
+            rest = [x for x in parts if x not in st]
+            for x in rest:
+                ok = isinstance(x, ast.Compare) and len(x.ops) == 1 and (
+                    (isinstance(x.ops[0], ast.LtE) and src(x.left) == "ms" and "get_ms_since_last_change" in src(x.comparators[0])) or
+                    (isinstance(x.ops[0], ast.GtE) and src(x.comparators[0]) == "ms" and "get_ms_since_last_change" in src(x.left)))
+                chk.ob("QUERY-1", "%s: the hold time asked for has elapsed (ms <= ms since last change)" % name, ok, q.where(r),
+                       detail=src(x), construct=q.ident, text="elapsed comparison in " + name + ": " + short(x, 60))
+        # a request with ms never answers from the state alone
+        cfq = q.cfg()
+        for n in cfq.nodes:
+            if n.kind == "stmt" and isinstance(n.ast, ast.Return) and n.ast.value is not None and "get_ms_since_last_change" not in src(n.ast.value) \
+                    and not (isinstance(n.ast.value, ast.Call) and call_attr(n.ast.value) == "is_state"):
+                g = cfq.guards_at(n.id)
+                chk.ob("QUERY-1", "%s answers from the state alone only when no hold time was asked" % name, g.get("ms") is False,
+                       q.where(n.ast), detail="guards %s" % sorted(g.items()), construct=q.ident, text="ms ignored in " + name)
+        for n in cfq.nodes:
+            if n.kind == "stmt" and isinstance(n.ast, (ast.Assign, ast.AugAssign)) and any(
+                    isinstance(t, ast.Name) and t.id == "ms" for t in assigned_targets(n.ast)):
+                g = cfq.guards_at(n.id)
+                chk.ob("QUERY-1", "%s never overwrites a hold time that was asked for" % name, g.get("ms") is False, q.where(n.ast),
+                       detail="guards %s" % sorted(g.items()), construct=q.ident, text="ms overwritten in " + name)
+    gm = repo.func(SW, "Switch.get_ms_since_last_change")
+    chk.analysed(gm)
+    rr = [r for r in ast.walk(gm.node) if isinstance(r, ast.Return) and r.value is not None]
+    ok = bool(rr) and all("self.last_change" in src(r.value) and "1000" in src(r.value) and "-" in src(r.value) for r in rr)
+    chk.ob("QUERY-1", "ms since last change = (now - last_change) * 1000", ok, gm.where(), construct=gm.ident, text="elapsed ms")
+    chk.floor("QUERY-1", 9)
+
+    # ------------------------------------------------------------- INIT-1
+    u = repo.func(SC, K + ".update_switches_from_hw")
+    chk.analysed(u)
+    cu = u.cfg()
+    sts = [n for n in cu.nodes if n.kind == "stmt" and isinstance(n.ast, ast.Assign) and src(n.ast.targets[0]).endswith(".state")]
+    if not sts:
+        chk.missing("INIT-1", "the initial hardware read stores each switch's state", u)
+    for n in sts:
+        v = n.ast.value
+        ok = isinstance(v, ast.BinOp) and isinstance(v.op, ast.BitXor) and any(src(x).endswith(".invert") for x in (v.left, v.right))
+        chk.ob("INIT-1", "the state read from hardware is inverted for NC switches", ok, u.where(n.ast), detail=src(v),
+               construct=u.ident, text="initial state " + short(v, 60))
+        g = cu.guards_at(n.id)
+        ok = bool(g) and all((k.replace(" ", "") == "switch.platform!=platform" and v_ is False) or
+                                 (k.replace(" ", "") == "switch.platform==platform" and v_ is True) for k, v_ in g.items())
+        chk.ob("INIT-1", "every switch of the platform being read is updated (only other platforms' switches are skipped)", ok,
+               u.where(n.ast), detail="guards %s" % sorted(g.items()), construct=u.ident, text="initial state guard")
+        hw = [x for x in ast.walk(v) if isinstance(x, ast.Subscript)]
+        loops = [h for h in cu.nodes if h.kind == "loop"]
+        chk.ob("INIT-1", "the value comes from the platform's reported states, indexed by the switch's number", bool(hw) and
+               any(call_attr(a.value) == "get_hw_switch_states" or (isinstance(a.value, ast.Await) and call_attr(a.value.value) == "get_hw_switch_states")
+                   for a in ast.walk(u.node) if isinstance(a, ast.Assign)), u.where(n.ast), construct=u.ident, text="reported states used")
+    # all switches and all their platforms are visited
+    adds = {src(c.func.value): c for c in ast.walk(u.node) if isinstance(c, ast.Call) and call_attr(c) == "add"}
+    chk.ob("INIT-1", "every configured switch and its platform are collected for the read", len(adds) >= 2 and all(
+        "switch" in src(c.args[0]) for c in adds.values()), u.where(), detail="collected: %s" % sorted(adds), construct=u.ident,
+        text="collection of switches/platforms")
+    ini = repo.func(SC, K + "._initialize_switches")
+    chk.analysed(ini)
+    ok = any(call_attr(c) == "update_switches_from_hw" for c in ast.walk(ini.node) if isinstance(c, ast.Call))
+    chk.ob("INIT-1", "initialisation reads the hardware states", ok, ini.where(), construct=ini.ident, text="initial read called")
+    lk = [n for n in ast.walk(ini.node) if isinstance(n, ast.Assign) and "_switch_lookup[" in src(n.targets[0])]
+    ok = bool(lk) and all("hw_switch.number" in src(n.targets[0]) and ".platform" in src(n.targets[0]) and src(n.value) == "switch" for n in lk)
+    chk.ob("INIT-1", "the (number, platform) lookup used by platform reports maps to the switch", ok, ini.where(), construct=ini.ident,
+           text="switch lookup table")
+    chk.floor("INIT-1", 4)
+
+    # ------------------------------------------------------------- EVT-1
+    g2 = repo.func(SW, "Switch._initialize")
+    cae = repo.func(SW, "Switch._create_activation_event")
+    chk.analysed(cae)
+    k = 0
+    for c in ast.walk(g2.node):
+        if not (isinstance(c, ast.Call) and call_attr(c) == "_create_activation_event" and len(c.args) >= 2):
+            continue
+        name_e, st = c.args[0], const_value(c.args[1])
+        text = src(name_e)
+        if isinstance(name_e, ast.Name):
+            for loop in ast.walk(g2.node):
+                if isinstance(loop, ast.For) and isinstance(loop.target, ast.Name) and loop.target.id == name_e.id \
+                        and any(x is c for x in ast.walk(loop)):
+                    text = src(loop.iter)
+        t = text.lower()
+        if "inactive" in t or "deactivated" in t:
+            want = 0
+        else:
+            want = 1
+        k += 1
+        chk.ob("EVT-1", "switch event `%s` is registered for state %d" % (short(name_e, 50), want), st == want, g2.where(c),
+               detail="registered for state %r" % (st,), construct=g2.ident, text="event %s state %r" % (" ".join(text.split())[:80], st))
+    chk.floor("EVT-1", 5)
+    # every configured source of switch events is registered
+    texts = [" ".join(src(c.args[0]).split()) for c in ast.walk(g2.node)
+             if isinstance(c, ast.Call) and call_attr(c) == "_create_activation_event" and c.args]
+    loops_txt = [src(l.iter) for l in ast.walk(g2.node) if isinstance(l, ast.For) and any(
+        isinstance(c, ast.Call) and call_attr(c) == "_create_activation_event" for c in ast.walk(l))]
+    alltxt = texts + loops_txt
+    SOURCES = [("switch_event_active", lambda t: "'switch_event_active'" in t), ("switch_event_inactive", lambda t: "'switch_event_inactive'" in t),
+               ("switch_tag_event (bare)", lambda t: "'switch_tag_event'" in t and "_active" not in t and "_inactive" not in t),
+               ("switch_tag_event + _active", lambda t: "'switch_tag_event'" in t and "'_active'" in t),
+               ("switch_tag_event + _inactive", lambda t: "'switch_tag_event'" in t and "'_inactive'" in t),
+               ("events_when_activated", lambda t: "'events_when_activated'" in t),
+               ("events_when_deactivated", lambda t: "'events_when_deactivated'" in t)]
+    for nm, pred in SOURCES:
+        chk.ob("EVT-1", "switch events from `%s` are registered" % nm, any(pred(t.replace('"', "'")) for t in alltxt), g2.where(),
+               construct=g2.ident, text="event source " + nm)
+    stores = [n for n in ast.walk(cae.node) if isinstance(n, ast.Call) and call_attr(n) in ("append", "add") and "_events_to_post" in src(n.func)]
+    ok = bool(stores) and all("_events_to_post[state]" in src(n.func).replace(" ", "") for n in stores)
+    chk.ob("EVT-1", "an activation event is filed under the state it was created for", ok, cae.where(), construct=cae.ident,
+           text="events_to_post[state] append")
+
 
 def battery():
     from sa.battery import M
@@ -438,6 +703,27 @@ def battery():
         M("twin: flip via 1 - x", SC, "                hw_state ^= 1\n", "                hw_state = 1 - hw_state\n", None),
         M("twin: deadline form", SC, "if switch.last_change > current_time - (ms / 1000.0) and state == switch.state:", "if switch.last_change + (ms / 1000.0) > current_time and state == switch.state:", None),
         M("twin: early return refactor", SC, "            if entry.cancelled:\n                continue\n\n            if entry.ms:", "            if entry.cancelled:\n                continue\n            if entry.ms:", None),
+        M("earlier deadline does not pre-empt (flag not set)", SC, "        elif next_event_time < self._timed_switch_handler_delay[switch][1]:\n            add_handler = True\n", "        elif next_event_time < self._timed_switch_handler_delay[switch][1]:\n", "PAIR-4"),
+        M("pre-emption test reads the handle field", SC, "next_event_time < self._timed_switch_handler_delay[switch][1]", "next_event_time < self._timed_switch_handler_delay[switch][0]", "PAIR-4"),
+        M("platform report dropped", SC, "        if switch:\n            self.process_switch_obj(switch, state, logical, timestamp)\n        else:", "        if switch:\n            pass\n        else:", "FWD-3"),
+        M("by_num swaps state and logical", SC, "self.process_switch_obj(switch, state, logical, timestamp)", "self.process_switch_obj(switch, logical, state, timestamp)", "FWD-3"),
+        M("remove by key does nothing", SC, "        self.remove_switch_handler_obj(switch_handler.switch_name, switch_handler.callback, switch_handler.state,\n                                       switch_handler.ms)\n\n    def remove_switch_handler_by_keys", "        pass\n\n    def remove_switch_handler_by_keys", "FWD-3"),
+        M("remove by key drops ms", SC, "switch_handler.state,\n                                       switch_handler.ms)", "switch_handler.state)", "FWD-3", nth=0),
+        M("Switch.remove_handler swaps state/ms", SW, "remove_switch_handler_obj(\n            self, callback, state, ms)", "remove_switch_handler_obj(\n            self, callback, ms, state)", "FWD-3"),
+        M("is_inactive tests active", SC, "        return switch.state == 0\n", "        return switch.state == 1\n", "QUERY-1"),
+        M("is_state ignores the asked state", SC, "            return switch.state == state and ms <= switch.get_ms_since_last_change()", "            return ms <= switch.get_ms_since_last_change()", "QUERY-1"),
+        M("is_state: elapsed test inverted", SC, "return switch.state == state and ms <= switch.get_ms_since_last_change()", "return switch.state == state and ms >= switch.get_ms_since_last_change()", "QUERY-1"),
+        M("is_state drops the hold time", SC, "        if not ms:\n            ms = 0.0\n\n        if ms:\n            return switch.state == state and", "        if ms:\n            ms = 0.0\n\n        if ms:\n            return switch.state == state and", "QUERY-1"),
+        M("initial read ignores NC", SC, "switch.state = switch_states[number] ^ switch.invert", "switch.state = switch_states[number]", "INIT-1"),
+        M("initial read applies one platform to all switches", SC, "                if switch.platform != platform:\n                    continue\n", "", "INIT-1"),
+        M("initial read not stored", SC, "                    switch.state = switch_states[number] ^ switch.invert", "                    switch_states[number] ^ switch.invert", "INIT-1"),
+        M("inactive event registered for active", SW, "'%', self.name), 0)", "'%', self.name), 1)", "EVT-1"),
+        M("deactivation events registered for active", SW, "            self._create_activation_event(event, 0)", "            self._create_activation_event(event, 1)", "EVT-1"),
+        M("tag _inactive event dropped", SW, "            self._create_activation_event(\n                self.machine.config['mpf']['switch_tag_event'].replace(\n                    '%', tag) + \"_inactive\", 0)\n", "", "EVT-1"),
+        M("platform timestamp overwritten", SC, "        if timestamp is None:\n            timestamp = self.machine.clock.get_time()\n\n        # flip", "        if timestamp is not None:\n            timestamp = self.machine.clock.get_time()\n\n        # flip", "DOM-7"),
+        M("state store deleted", SC, "        obj.state = state\n", "", ("DOM-8", "DOM-7", "DOM-6")),
+        M("twin: is_active delegates", SC, "        if ms:\n            return switch.state == 1 and ms <= switch.get_ms_since_last_change()\n\n        return switch.state == 1\n", "        return self.is_state(switch, 1, ms)\n", None),
+        M("twin: == platform guard", SC, "                if switch.platform != platform:\n                    continue\n                try:\n                    switch.state = switch_states[number] ^ switch.invert\n                except (IndexError, KeyError):", "                if switch.platform == platform:\n                  try:\n                    switch.state = switch_states[number] ^ switch.invert\n                  except (IndexError, KeyError):", None),
     ]
 
 
